@@ -225,6 +225,11 @@ fn gen_content(rng: &mut Rng, patch: bool, tier: Tier) -> Vec<u8> {
         }
         return gen_patch(rng, tier);
     }
+    if rng.chance(1, 600) {
+        // scale: a distfile beyond 1 MiB whose length is not a multiple of it
+        let n = *rng.pick(&[1_048_576usize, 1_048_577, 1_050_000, 2_097_153, 1_600_000]);
+        return (0..n).map(|i| (i % 251) as u8 ^ (i >> 12) as u8).collect();
+    }
     match rng.below(6) {
         0 => Vec::new(),
         1 => gen_patch(rng, tier), // a distfile that looks like a patch must NOT be filtered
@@ -709,7 +714,10 @@ impl Property for C12 {
         let mut names: Vec<String> = Vec::new();
         let collide = rng.chance(1, 3);
         while names.len() < n {
-            let name = if rng.chance(2, 5) {
+            let name = if rng.chance(1, 150) {
+                // scale: a recorded name of 255 / 256 / 257 path components
+                format!("{}f-deep.tgz", "d/".repeat(*rng.pick(&[254usize, 255, 256, 300])))
+            } else if rng.chance(2, 5) {
                 rng.pick(&PATCH_NAMES).to_string()
             } else if collide {
                 rng.pick(&["f.tgz", "a/f.tgz", "b/a/f.tgz", "c/b/a/f.tgz", "l\u{f8e9}gacy/f.tgz"]).to_string()
@@ -1511,7 +1519,7 @@ impl Property for C12 {
     }
 
     fn work_factor(&self) -> Option<u64> {
-        Some(256)
+        Some(1024)
     }
     fn rule(&self) -> String {
         "Each run stores 1..5 generated files (distfiles incl. DIST_SUBDIR names with colliding tails and patch \
